@@ -6,6 +6,7 @@ require (
 	github.com/andybalholm/brotli v1.1.1
 	github.com/gorilla/websocket v1.5.3
 	github.com/klauspost/compress v1.18.0
+	github.com/quic-go/quic-go v0.50.1
 	github.com/zishang520/engine.io-go-parser v1.3.2
 	github.com/zishang520/engine.io/v2 v2.0.0
 	github.com/zishang520/webtransport-go v0.8.6
@@ -14,7 +15,6 @@ require (
 require (
 	github.com/gookit/color v1.5.4 // indirect
 	github.com/quic-go/qpack v0.5.1 // indirect
-	github.com/quic-go/quic-go v0.50.1 // indirect
 	github.com/vmihailenco/msgpack/v5 v5.4.1 // indirect
 	github.com/vmihailenco/tagparser/v2 v2.0.0 // indirect
 	github.com/xo/terminfo v0.0.0-20210125001918-ca9a967f8778 // indirect
